@@ -57,7 +57,7 @@ seeded changes and which check catches which in §11.
   | U5 | `columns::wrap_columns` | the complete layout of C20 relative to whatever `wrap` returns; no panic; theorem: for well-formed texts whose lines fit, every row is exactly gaps + columns + remainder wide | C20, C04 |
   | U6 | `core::Word::from`, `core::break_words` | lossless, spaces-only whitespace, cached width; dispatch is lossless / identity for narrow words; words that hold no space stay so (`tails_ok`) | C11, C12, C01, C02 |
   | U8 | `indentation::indent` | equals the spec function of C19 | C19, C04 |
-  | U9 | `indentation::dedent` | removes exactly the margin the statement defines; theorems over that postcondition: idempotent, and `dedent(indent(s, p)) == dedent(s)`, for texts without carriage returns | C18, C04 |
+  | U9 | `indentation::dedent` | removes exactly the margin the statement defines; theorems over that postcondition: idempotent (outside KF4's input class), and `dedent(indent(s, p)) == dedent(s)` (texts without carriage returns) | C18, C04 |
   | U10 | `fill::fill_inplace` | same length; bytes change only `' '` → `'\\n'`, and exactly at the run ends first-fit makes of each line's ASCII words; `from_utf8(..).unwrap()` cannot fail | C17, C04 |
   | U11 | `wrap::wrap`, `wrap_single_line`, `wrap_single_line_slow_path` | every line starts with its indent; **for the whole text** line k is `indent_k ++ text[a_k..b_k] ++ (nothing \| "-")` with slices in order, on char boundaries, separated only by spaces and at most one line ending; **no slice ends in a space** (ASCII-space separator, built-in splitters); the line breaker gets the widths of the indents actually rendered (and a zero-width first fragment when the first line is the narrower one); >= 1 line per paragraph, earlier lines untouched; the shortcut's exact result, and (first-fit, built-in splitters) the slow path gives that same line when entered under the shortcut's condition; **`wrap` computes the paragraph-wise function `wrap_fn(split(text, E), options)`** (each of the three functions: the appended lines are a function of paragraph, options and "does it start the output"), with the relational clauses of C09 (independence of paragraphs, `wrap(b)` for empty indents, never fewer lines than paragraphs, LF↔CRLF) and C08 (what follows the indent depends on the indents' widths and emptiness only) as theorems over it | C08, C01, C02, C09, C05, C04 |
   | U12 | `fill::fill_slow_path`, `fill::fill` | both equal `wrap`'s lines joined by the line ending — shortcut included | C09, C05, C04 |
@@ -85,10 +85,10 @@ seeded changes and which check catches which in §11.
   - C04: "optimal-fit never reports an overflow error" (float magnitudes), the inside of `unicode-linebreak` / `unicode-width`, the
     `Box<dyn Iterator>` dispatch of `find_words`, the thin constructors;
   - C05: the first sentence (a paragraph whose display width fits is one line) and the optimal-fit / custom-splitter cases of the second;
-  - C13 end to end, C14, the round trips of C15 / C16, the agreement of `fill_inplace` with `wrap` (C17), C18's idempotence on texts that contain carriage returns:
+  - C13 end to end, C14, the round trips of C15 / C16, the agreement of `fill_inplace` with `wrap` (C17):
     relational statements that compare runs on *different* inputs through more than the paragraph structure.
   C09's and C08's relational clauses, by contrast, are theorems over `wrap`'s functional postcondition (U11, §2.9), and C18's two
-  corollaries are theorems over `dedent`'s (and `indent`'s) for texts without carriage returns (U9, §2.9).
+  corollaries are theorems over `dedent`'s (and `indent`'s) postconditions (U9, §2.9).
 * **Robustness of the machinery** (§8, §11): 175 seeded property-breaking changes that compile and pass the upstream suite
   (5 reverted fixes + 170 from independent sub-agents in twelve waves) are all reported; 25 + 12 behaviour-preserving refactors, 16 small edits and 137 renames of locals
   raise no alarm; every unit verifies under 8 different SMT seeds; the unchanged tree passes all 20 checks in both tiers.
@@ -196,9 +196,9 @@ that is the composition of contracts proved in different units, linked by an aud
 discharged relative to that link (this is how every multi-unit proof here works; C07's text-level reading and C03's last sentence
 are of this kind), and (b) a clause may fail on the input class of an *open known finding* — there the pinned code demonstrably
 violates the letter of the statement and the check says so (`KNOWN-FINDING`) — provided it is proved on the complement (C20's width
-sentence: proved for texts that do not end inside an escape sequence, false otherwise, KF7);
-`other` for mixtures (the explanation names the proved and the bounded parts; C18 is `other` because idempotence is proved only for texts without carriage
-returns; with them it is bounded-only and fails on KF4's class); `exploration` for bounded-only.
+sentence: proved for texts that do not end inside an escape sequence, false otherwise, KF7; C18's idempotence: proved for every text in which
+no line-break-terminated line with text ends in a carriage return — `kf4_free`, the exact complement of KF4's class —, false otherwise);
+`other` for mixtures (the explanation names the proved and the bounded parts); `exploration` for bounded-only.
 
 ### 2.8 How units are linked
 
@@ -260,12 +260,16 @@ given a postcondition of the form *result == F(arguments)* for a spec function `
 
 `dedent` and `indent` are the other place where the device applies. U8 proves `indent(s, p) == indent_spec(s, p)` (C19's further clauses
 are lemmas over `indent_spec`), U9 proves of `dedent` a postcondition that determines the result from `str::lines(s)` and the margin length.
-With one std fact — on a text without carriage returns `str::lines` is `split_terminator('\\n')`, stated as an axiom and checked on the
-real `str::lines` by the bounded contract `A4.std_models` — and the proved split / join lemmas both units share
-(`prelude/split_chars.vrs`, `prelude/indent_spec.vrs`), C18's two corollaries become theorems (U9): `c18_dedent_idempotent` (for *any* two
-results the contract allows for `s` and for the first result: they are equal; key lemma `second_margin_empty` — a common margin of
+With one std fact — `str::lines` is `lines_c`: the `'\\n'`-separated pieces, each terminated piece without one `'\\r'` directly before its `'\\n'`,
+the unterminated last piece as it is and dropped when empty (so, without carriage returns, `split_terminator('\\n')`: proved) — stated as an axiom and checked on the
+real `str::lines` by the bounded contract `A4.std_models`, and the proved split / join lemmas both units share
+(`prelude/split_chars.vrs`, `prelude/indent_spec.vrs`), C18's two corollaries become theorems (U9): `c18_dedent_idempotent_cr` (for *any* two
+results the contract allows for `s` and for the first result: they are equal — for every `s` satisfying `kf4_free`, i.e. outside known finding
+KF4's input class, carriage returns allowed; without that hypothesis the proof fails at exactly the step KF4 exploits; `c18_dedent_idempotent` is the
+CR-free special case; key lemma `second_margin_empty` — a common margin of
 the output lines, appended to the removed margin, would be a longer common margin of the input) and `c18_dedent_of_indent` (key lemma
-`margin_of_mapped`: the margin of the indented lines is the prefix followed by the margin of the lines). Both carry a vacuity probe.
+`margin_of_mapped`: the margin of the indented lines is the prefix followed by the margin of the lines; for `s` and `p` without carriage returns, which is what the statement claims). All three carry a vacuity probe.
+The bounded contract's KF4 class is the negation of `kf4_free`, computed on the input: a failure of idempotence outside it would contradict the theorem and is reported as a violation.
 
 The same device does not reach C14 (idempotence of `fill`), C13, C15/C16's round trips or C17's agreement with `wrap`: they
 compare runs on *different texts* whose relation goes through what the word stages compute, not just through how `wrap`
@@ -354,9 +358,9 @@ seeds the sampled inputs differ, nothing is recorded, and the class tag alone de
 
 ## 6. Applicability statement
 
-Levels claimed in MANIFEST: `proof` — C06, C07, C08, C09, C10, C11, C12, C19, C20 (every clause of the statement is a discharged Verus
+Levels claimed in MANIFEST: `proof` — C06, C07, C08, C09, C10, C11, C12, C18, C19, C20 (every clause of the statement is a discharged Verus
 obligation or loop-free Kani fact, under the named assumptions, in the sense of §2.7); `other` — C01, C02, C03, C04, C05,
-C13, C15, C16, C17, C18 (named functions proved for all inputs, named remainder bounded); `exploration` — C14: the deductive
+C13, C15, C16, C17 (named functions proved for all inputs, named remainder bounded); `exploration` — C14: the deductive
 technique does not apply (relational over two calls of `fill`; no contract within reach expresses it); it is claimed only
 through its bounded executable contract, labelled bounded. `not_applicable` in MANIFEST is empty because every property
 has a check; a reader who counts only deductive results should read C14 as not applicable. Reasons for every bounded remainder are the
@@ -413,7 +417,7 @@ w("""## 9. Departures from the original plan
 * A10 (char-boundary safety of wrap's slices; `from_utf8(..).unwrap()` in `fill_inplace`) is discharged, not assumed; so are A2 (Kani K1) and, as far as safety goes, A7 (`LineNumbers`, U23 through R17).
 * `options.rs` (U22) and `LineNumbers` (U23) are under contract as well; neither was in the plan.
 * K2's bound is smaller than planned (quarter-integer widths, ≈ 10 min) and it runs in the thorough tier only; K4 (Kani on `smawk`) was not built (see the last bullet).
-* C18 rose from `exploration` to `other` (margin rule and output shape proved; the two corollaries bounded); C11 from `other` to `proof` (completeness of the Unicode word finder proved); C16 from `exploration` to `other`;
+* C18 rose from `exploration` to `other` (margin rule and output shape proved; the two corollaries bounded) and then to `proof` (both corollaries are theorems over the postconditions, idempotence on exactly the complement of KF4's class); C11 from `other` to `proof` (completeness of the Unicode word finder proved); C16 from `exploration` to `other`;
   C08 and C09 from `other` to `proof` (functional postcondition of `wrap`, §2.9).
 * A8 (termination of `display_width`) and A16 (float exactness, by Kani K3) are discharged; two std facts about `str::split` are proved for a scan model instead of assumed.
 * The merge follows consistent renames of bound locals (§2.1); it did not in the plan.
